@@ -175,8 +175,24 @@ def generate(rng, tier, index):
         if scale and backend == "sugar":
             what = "find_answer"  # thousands of keys through a refute loop: any algorithm needs >= one call per key
         ops.append({"op": what})
-    sc["ops"] = ops
+    sc["ops"] = add_fault(rng, ops) if (mode == "honest" and not scale) else ops
     return sc
+
+
+def add_fault(rng, ops, p=0.1):
+    """Fault injection: in one honest scenario out of ten the external solver dies without a reply
+    at the n-th call of one query, and the same Solver (or backend object) is queried again."""
+    r = random.Random(rng.random())  # one draw: the rest of the scenario stream is unchanged
+    if r.random() >= p:
+        return ops
+    at = [j for j, o in enumerate(ops) if o["op"] in ("find_answer", "solve")]
+    if not at:
+        return ops
+    j = r.choice(at)
+    ops = ops[:j] + [{"op": "arm_fault", "n": r.choice([1, 1, 2, 3])}] + ops[j:]
+    if j == at[-1]:
+        ops.append(dict(ops[j + 1]))
+    return ops
 
 
 def valid(sc):
@@ -211,6 +227,9 @@ def valid(sc):
                     return False
             elif k == "solve":
                 if sc["mode"] == "scripted" and sc["backend"] == "sugar":
+                    return False
+            elif k == "arm_fault":
+                if op["n"] < 1 or sc["mode"] != "honest":
                     return False
             elif k != "find_answer":
                 return False
@@ -406,6 +425,7 @@ def run(sc) -> RunResult:
             if sc.get("timeout") and sc.get("psutil"):
                 res.hit("knob:popen_deadline_path")
             fake_sub.stall_on_call = sc.get("stall")
+            pending_fault = None
             for n_op, op in enumerate(sc["ops"]):
                 k = op["op"]
                 res.steps += 1
@@ -445,9 +465,14 @@ def run(sc) -> RunResult:
                     elif k == "scribble":
                         vars_[op["id"]].sol = op["val"]
                         res.hit("perturb:sol_scribble")
+                    elif k == "arm_fault":
+                        pending_fault = op["n"]
+                        res.log("op", n_op, "arm_fault", op["n"])
                     elif k in ("find_answer", "solve"):
                         n_before = len(peer.received)
                         n_stalls_before = fake_sub.stalls_fired
+                        n_faults_before = peer.faults_fired
+                        peer.fault_in, pending_fault = pending_fault, None
                         bound = 8 + 3 * sum((2 if decls[i]["t"] == "b" else decls[i]["hi"] - decls[i]["lo"] + 1) for i in keys)
                         peer.calls = 0
                         peer.cap = bound if k == "solve" else 4
@@ -492,6 +517,22 @@ def run(sc) -> RunResult:
                             # the injected stall: the caller is told, no answer is made up
                             res.hit("stall:timeout_propagated_to_caller")
                             res.log("op", n_op, k, "timeout")
+                            continue
+                        except Exception as e:
+                            if peer.faults_fired == n_faults_before or isinstance(e, core.HarnessError):
+                                raise
+                            # the injected death of the external solver reached the caller
+                            res.hit("fault:failure_propagated_to_caller")
+                            res.log("op", n_op, k, "failed-with-the-solver", type(e).__name__)
+                            if direct:
+                                direct_be = None  # a backend object whose call failed is not queried again
+                            continue
+                        finally:
+                            peer.fault_in = None
+                        if peer.faults_fired > n_faults_before:
+                            # no well-formed reply was given: the property says nothing about this query
+                            res.hit("fault:absorbed_query_returned")
+                            res.log("op", n_op, k, "returned-after-solver-failure")
                             continue
                         if fake_sub.stalls_fired > n_stalls_before:
                             res.violate("C03/wrong-return-value", f"op#{n_op} {k} returned {r!r} although the external solver never replied (deadline passed) [{tag}]")
